@@ -538,9 +538,9 @@ func distinctive(typ reflect.Type, i int) reflect.Value {
 	switch typ.Kind() {
 	case reflect.Bool:
 		out.SetBool(true)
-	case reflect.Int32, reflect.Int64:
+	case reflect.Int32, reflect.Int64, reflect.Int:
 		out.SetInt(int64(i + 1))
-	case reflect.Uint32, reflect.Uint64:
+	case reflect.Uint32, reflect.Uint64, reflect.Uint:
 		out.SetUint(uint64(i + 1))
 	case reflect.Float32, reflect.Float64:
 		out.SetFloat(float64(i) + 1.5)
